@@ -3,7 +3,7 @@
    sat_incremental (+ the strong form), sat_incremental_proviso_needed, sat_subroot. *)
 From Coq Require Import List ZArith Bool Lia.
 From DD Require Import Model.Circuit Model.Query Proofs.PassLemmas Proofs.Enum Proofs.Semantics
-  Proofs.DetCert Proofs.CountsA Proofs.QueryDefs.
+  Proofs.DetCert Proofs.CountsA Proofs.QueryDefs Proofs.Live.
 Import ListNotations.
 Open Scope Z_scope.
 
@@ -677,21 +677,20 @@ Proof.
   apply existsb_exists in Hex. destruct Hex as [f [Hf Hmu]].
   unfold makes_unsat in Hmu. apply andb_true_iff in Hmu. destruct Hmu as [_ Hmu].
   apply memZ_In in Hmu. change (core d) with (calculate_core C n) in Hmu.
-  unfold calculate_core in Hmu. apply filter_In in Hmu. destruct Hmu as [_ Hmu].
-  apply andb_true_iff in Hmu. destruct Hmu as [_ Hmu]. apply negb_true_iff in Hmu.
-  rewrite Z.opp_involutive in Hmu. apply has_lit_false in Hmu.
+  (* no configuration of the root contains f (Proofs/Live.v; f may be a leaf of a dead branch) *)
+  pose proof (core_enum_spec C n (- f) Hok (wf_nonempty C n HWF) Hmu) as Hnf.
   assert (Hroot : (root C < length C)%nat) by (apply root_lt; apply HWF).
   unfold cA. rewrite (countsA_filter A C Hok (root C) Hroot).
   rewrite filter_none_length; [reflexivity|]. intros c Hc.
-  assert (HG : Good c (last (varss C) [])).
-  { apply (root_good C n HWF). now rewrite enum_root_nth. }
+  assert (Hc' : In c (enum_root C)) by now rewrite enum_root_nth.
+  assert (HG : Good c (last (varss C) [])) by (apply (root_good C n HWF); exact Hc').
   pose proof (complete_range C n (wf_complete C n HWF)) as HV.
   destruct HG as [_ Hcov].
   assert (Hin : In (Z.abs f) (map Z.abs c)) by (apply Hcov, HV, HA, Hf).
   apply in_map_iff in Hin. destruct Hin as [x [Habs Hx]].
-  assert (Hxl : In x (lits_of C)) by exact (enum_lits (root C) Hroot c x Hc Hx).
   assert (Hxf : x = - f).
-  { assert (x = f \/ x = - f) as [->| ->] by lia; [contradiction|reflexivity]. }
+  { assert (x = f \/ x = - f) as [->| ->] by lia; [|reflexivity].
+    exfalso. apply (Hnf c Hc'). now rewrite Z.opp_involutive. }
   destruct (okA A c) eqn:Eok; [|reflexivity]. unfold okA in Eok. rewrite forallb_forall in Eok.
   specialize (Eok x Hx). rewrite Hxf, Z.opp_involutive in Eok.
   apply negb_true_iff, memZ_false in Eok. contradiction.
